@@ -46,6 +46,11 @@ def gen_cases(tr, sd):
     cases = []
     for (kind, text), node in zip(FIXED, fixed_nodes()):
         cases.append(dict(kind=kind, text=text, node=node, origin="fixed"))
+    for src in ["abbbc", "baaab", "abcabcab", "aabaab", "banana", "the cat sat on the mat"]:
+        mode = "words" if " " in src else "chars"
+        chunks = rxref._split_words(src) if mode == "words" else list(src)
+        node = rxref.Substr(chunks, mode, src)
+        cases.append(dict(kind="lark", text="start: T\nT: %s\n" % rxref.to_lark(node), node=node, origin="fixed-substring"))
     n = 240 if tr == "quick" else 1500
     for i in range(n):
         c = rxref.gen_case(rng, i)
